@@ -215,6 +215,22 @@ pub fn items(tier: Tier, id: &str) -> Vec<Item> {
             out.push(Item { cfgs: c.to_vec(), f32_too: false });
         }
     }
+    if id == "C17" {
+        // long filters with oversampling factors that are not powers of two (160 is the
+        // ratio-matched choice for 44.1 -> 48 kHz): table positions x/factor are not exact in
+        // binary, so a table built with f32 arithmetic of the wrong shape loses accuracy here
+        let mut cfgs = Vec::new();
+        for kind in [Kind::SI, Kind::SO] {
+            for (l, os, interp) in [(1024usize, 160usize, Interp::Nearest), (1024, 100, Interp::Linear), (512, 160, Interp::Cubic), (256, 3, Interp::Quadratic)] {
+                let mut c = Cfg::sinc(kind, 48000.0 / 44100.0, 1.0, 1024, l, os, interp, Kernel::Dispatch);
+                c.channels = 1;
+                cfgs.push(c);
+            }
+        }
+        for c in cfgs.chunks(1) {
+            out.push(Item { cfgs: c.to_vec(), f32_too: false });
+        }
+    }
     if id != "C06" {
         for g in fft_groups(tier) {
             out.push(Item { cfgs: g, f32_too: tier == Tier::Thorough });
